@@ -215,7 +215,7 @@ def mk_chain3(depth, layout, tokens=None):
 # buffered PacketFIFO (packetfifo_buffered_progress: 1, packetfifo_buffered_no_livelock: pd + 2).
 # Arbiter with a subset of masters offering (arbiter_progress_subset: 2); packetizer_accepts (W + 1, not measured).
 # Declared and measured only (open statements in the same file): unaligned Packetizer/Depacketizer progress
-# (stability of the Packetizer for every header length: packetizer_stable_all; its source side:
+# (stability of the Packetizer for every header length: packetizer_stable_partial; its source side:
 # packetizer_no_livelock_any).  All are enforced with the usual slack of 2 cycles.
 PK = dict(k_arb=(2, 2), k_disp=1, k_fifo=(1, None), k_fifo_buf=(1, None), k_pk=(1, 1), k_dpk=(1, None),
           k_pk_u=(1, 1))
